@@ -917,14 +917,14 @@ impl Model for Cw20Model {
                         .unwrap();
                 }
                 let out = w.migrate(&tok, b"{}");
-                if !out.ok() {
+                if !out.ok() && cfg.props.c19 {
                     v.push(Violation::new("C19.migrate_fails", out.err()));
                 }
                 let obs = self.observe(&w).unwrap_or_default();
                 if obs != *pre {
                     v.push(Violation::new(
-                        "C19.migration_changes_owner_view",
-                        "balances / supply / Allowance queries differ after migrate".into(),
+                        if cfg.props.c13 { "C13.migration_changes_minter_cap_or_supply" } else { "C19.migration_changes_owner_view" },
+                        format!("balances / supply / minter / Allowance queries differ after migrate: minter {:?} -> {:?}, supply {} -> {}", pre.minter, obs.minter, pre.supply, obs.supply),
                     ));
                 }
                 self.check_state(&w, &r, &obs, &mut v);
